@@ -1,10 +1,12 @@
 /-
   C04 — A coin is spent only when its covenant approves that very spend.
-  Property theorems only; helper lemmas live in MelModel/Lemmas/Cov.lean.
+  Property theorems only; helper lemmas live in MelModel/Lemmas/Cov.lean (and, for the first-block environment,
+  MelModel/Lemmas/SeqL.lean).
 -/
 import MelModel.ApplyTx
 import MelModel.VM.Std
 import MelModel.Lemmas.Cov
+import MelModel.Lemmas.SeqL
 namespace Mel
 open Mel.Gen Mel.VM
 
@@ -92,6 +94,50 @@ theorem C04_env (tx : Tx) (e : CovEnv) :
     HADDR_PARENT_TXHASH, HADDR_PARENT_INDEX, HADDR_SELF_HASH, HADDR_PARENT_VALUE, HADDR_PARENT_DENOM,
     HADDR_PARENT_ADDITIONAL_DATA, HADDR_PARENT_HEIGHT, HADDR_LAST_HEADER]
 
+/-- **the environment in the first block** (finding F25): in a state without previous header the header covenants
+    see is the stand-in `genesisStandIn s` — network, height, fee multiplier and DOSC speed of the state, every root
+    and the fee pool zero — whatever fallback header is passed.  (Before the `fix:` it was the header of the current
+    block sealed as it stood, which changes with every transaction applied.) -/
+theorem C04_first_block_env (s : State) (fb : Header) (tx : Tx) (i : Nat) (id : CoinID) (coin : CoinDataHeight)
+    (hn : s.history.get (s.height - 1) = none) :
+    (spendEnv s fb tx i id coin).lastHeader = genesisStandIn s := by
+  simp only [spendEnv, lastHeaderOf, hn, Option.getD_none]
+
+/-- in a later block it is the previous header -/
+theorem C04_later_block_env (s : State) (fb : Header) (tx : Tx) (i : Nat) (id : CoinID) (coin : CoinDataHeight)
+    (hdr : Header) (hp : s.history.get (s.height - 1) = some hdr) :
+    (spendEnv s fb tx i id coin).lastHeader = hdr := by
+  simp only [spendEnv, lastHeaderOf, hp, Option.getD_some]
+
+/-- the stand-in is unchanged by an accepted batch that leaves the DOSC speed alone (`applyBatch` keeps network,
+    height and fee multiplier) -/
+theorem C04_standIn_stable (env : Env) (s s' : State) (txs : List Tx) (fb : Header)
+    (h : applyBatch env s txs fb = .ok s') (hd : s'.doscSpeed = s.doscSpeed) :
+    genesisStandIn s' = genesisStandIn s :=
+  SeqL.batch_standIn h hd
+
+/-- … which is the case of every accepted batch without DoscMint transaction -/
+theorem C04_standIn_stable_noMint (env : Env) (s s' : State) (txs : List Tx) (fb : Header)
+    (h : applyBatch env s txs fb = .ok s') (hk : ∀ tx ∈ txs, tx.kind ≠ .doscMint) :
+    genesisStandIn s' = genesisStandIn s :=
+  SeqL.batch_standIn h (SeqL.batch_speed_noMint h hk)
+
+/-- … and of every accepted batch in the first block: a DoscMint transaction is accepted only where the previous
+    header exists (`validateDoscmint` reads its speed), so where the stand-in is used nothing can change it.  The
+    state after still has no previous header, so its covenants see the same stand-in. -/
+theorem C04_first_block_standIn_stable (env : Env) (s s' : State) (txs : List Tx) (fb : Header)
+    (hn : s.history.get (s.height - 1) = none) (h : applyBatch env s txs fb = .ok s') :
+    genesisStandIn s' = genesisStandIn s ∧ s'.history.get (s'.height - 1) = none := by
+  obtain ⟨-, e2, -, e1, -⟩ := SeqL.batch_keeps h
+  exact ⟨SeqL.batch_standIn h (SeqL.batch_speed_first h hn), by rw [e1, e2]; exact hn⟩
+
+/-- **the environment is fixed for the block**: after any accepted batch the spending environment of a given input
+    is what it was before, in every state (first block included) and whatever fallbacks are passed -/
+theorem C04_env_stable (env : Env) (s s' : State) (txs : List Tx) (fb fb₁ fb₂ : Header)
+    (h : applyBatch env s txs fb = .ok s') (tx : Tx) (i : Nat) (id : CoinID) (coin : CoinDataHeight) :
+    spendEnv s' fb₁ tx i id coin = spendEnv s fb₂ tx i id coin := by
+  simp only [spendEnv, SeqL.batch_lastHeader h fb₁ fb₂]
+
 /-- standard covenant (new style): approves iff the signature in the slot numbered by the input position is a
     valid Ed25519 signature of the signature-free transaction hash by the named key -/
 theorem C04_std_new (o : Oracles) (pk : Bytes) (hpk : pk.length = 32) (tx : Tx) (e : CovEnv)
@@ -117,5 +163,11 @@ end Mel
 #print axioms Mel.C04_undecodable
 #print axioms Mel.C04_false
 #print axioms Mel.C04_env
+#print axioms Mel.C04_first_block_env
+#print axioms Mel.C04_later_block_env
+#print axioms Mel.C04_standIn_stable
+#print axioms Mel.C04_standIn_stable_noMint
+#print axioms Mel.C04_first_block_standIn_stable
+#print axioms Mel.C04_env_stable
 #print axioms Mel.C04_std_new
 #print axioms Mel.C04_std_legacy
